@@ -111,6 +111,43 @@ type hybTarget struct {
 	h     comet.HybridSearchIndex
 	store *comet.PersistentHybridIndex
 	dir   string
+	sides []comet.HybridSearchIndex // other index instances used at the same time: generated ids are unique across instances
+}
+
+// sideAuto: an id generated through another instance (a second hybrid index, or a bare node constructor)
+func (t *hybTarget) sideAuto(r *rand.Rand) (uint32, error) {
+	switch x := r.Intn(len(t.sides) + 2); {
+	case x < len(t.sides):
+		return t.sides[x].Add([]float32{3, 1}, "bb", nil)
+	case x == len(t.sides):
+		return comet.NewVectorNode([]float32{1, 1}).ID(), nil
+	default:
+		return comet.NewMetadataNode(map[string]any{"c": "y"}).ID(), nil
+	}
+}
+
+func newSides(n int) []comet.HybridSearchIndex {
+	out := []comet.HybridSearchIndex{}
+	for i := 0; i < n; i++ {
+		f, _ := comet.NewFlatIndex(2, comet.L2Squared)
+		out = append(out, comet.NewHybridSearchIndex(f, comet.NewBM25SearchIndex(), comet.NewRoaringMetadataIndex()))
+	}
+	return out
+}
+
+// gatedFlat: a flat index whose Add parks until released (a harness-side yield point inside a hybrid Add, no hook needed)
+type gatedFlat struct {
+	comet.VectorIndex
+	entered, release chan struct{}
+	used             atomic.Bool
+}
+
+func (g *gatedFlat) Add(v comet.VectorNode) error {
+	if g.used.CompareAndSwap(false, true) { // the first Add only
+		close(g.entered)
+		<-g.release
+	}
+	return g.VectorIndex.Add(v)
 }
 
 func (t *hybTarget) add(id uint32) error {
@@ -186,7 +223,7 @@ func newTarget(kind string, rng *rand.Rand) (concTarget, error) {
 		return &metaTarget{comet.NewRoaringMetadataIndex()}, nil
 	case "hybrid":
 		f, _ := comet.NewFlatIndex(2, comet.L2Squared)
-		return &hybTarget{h: comet.NewHybridSearchIndex(f, comet.NewBM25SearchIndex(), comet.NewRoaringMetadataIndex())}, nil
+		return &hybTarget{h: comet.NewHybridSearchIndex(f, comet.NewBM25SearchIndex(), comet.NewRoaringMetadataIndex()), sides: newSides(2)}, nil
 	case "store":
 		dir, _ := os.MkdirTemp("", "vh-conc-")
 		cfg := comet.DefaultStorageConfig(dir)
@@ -197,7 +234,7 @@ func newTarget(kind string, rng *rand.Rand) (concTarget, error) {
 		f, _ := comet.NewFlatIndex(2, comet.L2Squared)
 		cfg.VectorIndexTemplate, cfg.TextIndexTemplate, cfg.MetadataIndexTemplate = f, comet.NewBM25SearchIndex(), comet.NewRoaringMetadataIndex()
 		st, err := comet.OpenPersistentHybridIndex(cfg)
-		return &hybTarget{h: st, store: st, dir: dir}, err
+		return &hybTarget{h: st, store: st, dir: dir, sides: newSides(1)}, err
 	}
 	return nil, fmt.Errorf("unknown kind %s", kind)
 }
@@ -254,6 +291,12 @@ func drvConc(args []string) error {
 						log(E{"seq": seq.Add(1), "ev": "ret", "c": c, "op": "add", "id": d, "ok": err == nil, "err": errStr(err)})
 						mine = append(mine, d)
 					case x < 9 && tgt.hasAuto():
+						if ht, ok := tgt.(*hybTarget); ok && len(ht.sides) > 0 && r.Intn(2) == 0 {
+							log(E{"seq": seq.Add(1), "ev": "call", "c": c, "op": "sideauto", "id": 0})
+							d, err := ht.sideAuto(r)
+							log(E{"seq": seq.Add(1), "ev": "ret", "c": c, "op": "sideauto", "id": d, "ok": err == nil, "err": errStr(err)})
+							continue
+						}
 						log(E{"seq": seq.Add(1), "ev": "call", "c": c, "op": "addauto", "id": 0})
 						d, err := tgt.addAuto()
 						log(E{"seq": seq.Add(1), "ev": "ret", "c": c, "op": "addauto", "id": d, "ok": err == nil, "err": errStr(err)})
@@ -336,6 +379,11 @@ func drvConc(args []string) error {
 				return err
 			}
 			log(E{"seq": seq.Add(1), "ev": "end", "deadlock": dl, "panic": false, "kind": kind + "-forced-remove"})
+		}
+		if containsStr(kindList, "hybrid") {
+			log(E{"seq": seq.Add(1), "ev": "reset", "kind": "hybrid-forced-autoid"})
+			dl := forcedAutoIDAcrossInstances(log, &seq, &callID)
+			log(E{"seq": seq.Add(1), "ev": "end", "deadlock": dl, "panic": false, "kind": "hybrid-forced-autoid"})
 		}
 		if containsStr(kindList, "store") {
 			log(E{"seq": seq.Add(1), "ev": "reset", "kind": "store-forced-close"})
@@ -449,6 +497,55 @@ func forcedAddVsRotation(log func(E), seq, callID *atomic.Int64, nextDoc *atomic
 	res, err := tgt.search()
 	log(E{"seq": seq.Add(1), "ev": "ret", "c": c, "op": "search", "id": 0, "ok": err == nil, "res": res, "exact": true, "err": errStr(err)})
 	return nil
+}
+
+// forcedAutoIDAcrossInstances: an Add with a generated id on instance A is parked inside its vector sub-index while
+// instance B (another hybrid index), a store and the bare node constructors generate ids; then A's Add completes.
+// All generated ids must be pairwise different.
+func forcedAutoIDAcrossInstances(log func(E), seq, callID *atomic.Int64) bool {
+	fa, _ := comet.NewFlatIndex(2, comet.L2Squared)
+	ga := &gatedFlat{VectorIndex: fa, entered: make(chan struct{}), release: make(chan struct{})}
+	a := comet.NewHybridSearchIndex(ga, comet.NewBM25SearchIndex(), comet.NewRoaringMetadataIndex())
+	b := newSides(1)[0]
+	dir, _ := os.MkdirTemp("", "vh-autoid-")
+	defer os.RemoveAll(dir)
+	cfg := comet.DefaultStorageConfig(dir)
+	cfg.CompactionInterval = time.Hour
+	fs, _ := comet.NewFlatIndex(2, comet.L2Squared)
+	cfg.VectorIndexTemplate, cfg.TextIndexTemplate, cfg.MetadataIndexTemplate = fs, comet.NewBM25SearchIndex(), comet.NewRoaringMetadataIndex()
+	st, err := comet.OpenPersistentHybridIndex(cfg)
+	if err != nil {
+		return false
+	}
+	defer st.Close()
+	gen := func(f func() (uint32, error)) {
+		c := callID.Add(1)
+		log(E{"seq": seq.Add(1), "ev": "call", "c": c, "op": "sideauto", "id": 0})
+		d, err := f()
+		log(E{"seq": seq.Add(1), "ev": "ret", "c": c, "op": "sideauto", "id": d, "ok": err == nil, "err": errStr(err)})
+	}
+	done := make(chan struct{})
+	go func() {
+		gen(func() (uint32, error) { return a.Add([]float32{1, 2}, "aa", map[string]any{"c": "x"}) })
+		close(done)
+	}()
+	select {
+	case <-ga.entered: // A's Add is inside its vector sub-index
+		gen(func() (uint32, error) { return b.Add([]float32{3, 4}, "bb", nil) })
+		gen(func() (uint32, error) { return st.Add([]float32{5, 6}, "cc", nil) })
+		gen(func() (uint32, error) { return comet.NewVectorNode([]float32{1, 1}).ID(), nil })
+		gen(func() (uint32, error) { return comet.NewMetadataNode(map[string]any{"c": "y"}).ID(), nil })
+		close(ga.release)
+	case <-done:
+	case <-time.After(5 * time.Second):
+		close(ga.release)
+	}
+	select {
+	case <-done:
+		return false
+	case <-time.After(20 * time.Second):
+		return true
+	}
 }
 
 func containsStr(xs []string, x string) bool {
